@@ -565,9 +565,10 @@ def outputs_of(p):
 def run_unit(job, spec):
     """Explore one scenario and discharge the obligations of *spec* (the
     property module: PID, oracles_for, classify, guarantees, preconditions)."""
-    kind, cfg = job
+    kind, cfg = job[:2]
+    mandatory = "extended" not in job[2:]      # extended units may stay undecided (thorough tier only)
     scn = make(kind, cfg)
-    u = RS.RUnit(scn.name, timeout_ms=60000)
+    u = RS.RUnit(scn.name + ("" if mandatory else " [extended]"), timeout_ms=60000)
     u.functions(*scn.functions)
     RS.install()
     ex = symx.Explorer(timeout_ms=20000, max_paths=6000, max_forks=600)
@@ -594,7 +595,7 @@ def run_unit(job, spec):
             if not rels:
                 continue
             pp.prove(oname, rels, handler(scn, oname, o, spec), sample=(pi == 0 and oname != "defined"),
-                     slice=getattr(fn, "slice", False))
+                     slice=getattr(fn, "slice", False), mandatory=mandatory)
             if oname == "grid" or oname.startswith("lemma:"):
                 # grid: whatever is wrong with it is reported once, here;
                 # lemma: an intermediate identity, proved first, then used
@@ -708,12 +709,15 @@ def configs(chk):
     for n in ((2, 3) if quick else (2, 3, 4)):
         jobs.append(("pinhole-matrix-zero-width", {"n": n}))
     for ne in ((2, 3, 4) if quick else (2, 3, 4, 5, 6)):
-        jobs.append(("qperp", {"ne": ne}))
+        jobs.append(("qperp", {"ne": ne}) + (("extended",) if ne > 5 else ()))
     for mode in ("00", "L", "W", "LW"):
         # columns are independent in the code: paths multiply with nq
-        shapes = [(2, 1), (3, 1), (2, 2)] if quick else [(2, 1), (3, 1), (4, 1), (2, 2), (3, 2)]
-        for nc, nq in shapes:
+        for nc, nq in [(2, 1), (3, 1), (2, 2)]:
             jobs.append(("slit-matrix", {"mode": mode, "nc": nc, "nq": nq}))
+        if not quick:
+            for nc, nq in [(4, 1), (3, 2)]:
+                # the polynomial queries of the largest length-kernel grids may time out: extended
+                jobs.append(("slit-matrix", {"mode": mode, "nc": nc, "nq": nq}) + (("extended",) if mode == "L" else ()))
     nmax = 2 if quick else 3
     for n in range(1, nmax + 1):
         jobs.append(("pinhole1d", {"n": n}))
@@ -786,7 +790,7 @@ def run(chk):
                        "doubles modelled as reals"]
     jobs = configs(chk)
     if getattr(chk, "only", None):
-        jobs = [j for j in jobs if chk.only in make(*j).name]
+        jobs = [j for j in jobs if chk.only in make(*j[:2]).name]
     chk.add(pmap(unit, jobs))
 
 
